@@ -136,6 +136,7 @@ Proof.
   - split_ifs; simpl; left; reflexivity.
   - split_ifs; simpl; left; reflexivity.
   - destruct (th_kind t); split_ifs; simpl; left; reflexivity.
+  - destruct (th_kind t); split_ifs; simpl; left; reflexivity.
   - simpl; left; reflexivity.
   - split_ifs; simpl; left; reflexivity.
   - simpl; left; reflexivity.
@@ -163,6 +164,7 @@ Proof.
   - split_ifs; try reflexivity; exact H.
   - split_ifs; reflexivity.
   - destruct (th_kind t); unfold wpos; simpl; split_ifs; reflexivity.
+  - destruct (th_kind t); unfold wpos; simpl; split_ifs; reflexivity.
   - unfold wpos. simpl. split_ifs; reflexivity.
   - destruct (locked d); [exact H | reflexivity].
   - reflexivity.
@@ -189,6 +191,7 @@ Proof.
   - split_ifs; reflexivity.
   - split_ifs; reflexivity.
   - split_ifs; reflexivity.
+  - destruct (th_kind t) eqn:Ek; split_ifs; simpl; congruence.
   - destruct (th_kind t) eqn:Ek; split_ifs; simpl; congruence.
   - reflexivity.
   - destruct (locked d); reflexivity.
@@ -226,16 +229,16 @@ Lemma wl_res_panic : forall fx d t x,
 Proof.
   intros fx d t x. unfold wl_res.
   destruct (th_kind t); try (intros H; apply keep_panic in H; tauto).
-  intros H. right; right. eapply eval_res_panic; exact H.
+  all: intros H; right; right; eapply eval_res_panic; exact H.
 Qed.
 
 Lemma api_step_panic : forall fx d r t,
   th_res (snd (api_step fx d r t)) = RPanic ->
-  th_res t = RPanic \/ fx_nil_guard fx = false \/ fx_err_guard fx = false.
+  th_res t = RPanic \/ fx_nil_guard fx = false \/ fx_err_guard fx = false \/ fx_tx_guard fx = false.
 Proof.
   intros fx d r t. unfold api_step.
   assert (Hwl : forall x, x <> RPanic -> wl_res fx d t x = RPanic ->
-            th_res t = RPanic \/ fx_nil_guard fx = false \/ fx_err_guard fx = false).
+            th_res t = RPanic \/ fx_nil_guard fx = false \/ fx_err_guard fx = false \/ fx_tx_guard fx = false).
   { intros x Hx H. apply wl_res_panic in H. destruct H as [H|[H|H]]; auto. contradiction. }
   destruct (th_pc t).
   - destruct (th_kind t);
@@ -261,6 +264,8 @@ Proof.
   - destruct (disposing d); simpl; [apply Hwl; discriminate|].
     destruct (th_kind t); simpl; auto;
       intros H; apply keep_panic in H; destruct H as [H|H]; [auto | discriminate].
+  - destruct (th_kind t); simpl; split_ifs; simpl; auto;
+      intros H; try discriminate; try (apply keep_panic in H; destruct H as [H|H]; [auto | discriminate]).
   - simpl. intros H. apply keep_panic in H. destruct H as [H|H]; [auto|].
     destruct (disposing d); discriminate.
   - destruct (locked d); simpl; auto.
@@ -447,6 +452,7 @@ Proof.
       * destruct Hsh as (S1 & S2 & S3 & S4 & S5 & S6). unfold shape. simpl in *.
         repeat split; auto; try (rewrite S5; reflexivity).
       * right. split; reflexivity.
+    + exists k; exact HG.
     + exists k; exact HG.
     + exists k; exact HG.
     + exists k; exact HG.
@@ -752,9 +758,10 @@ End Reach.
 
 Definition invP (c : cfg) : Prop := Forall (fun t => th_res t <> RPanic) (ths c).
 
-Lemma invP_step : forall fx c i, fx_nil_guard fx = true -> fx_err_guard fx = true -> invP c -> invP (step fx c i).
+Lemma invP_step : forall fx c i, fx_nil_guard fx = true -> fx_err_guard fx = true -> fx_tx_guard fx = true ->
+  invP c -> invP (step fx c i).
 Proof.
-  intros fx c i Hfx Hfe HP.
+  intros fx c i Hfx Hfe Hft HP.
   destruct (step_cases fx c i) as [[_ E]|(l1 & t & l2 & Eths & E)]; rewrite E; [exact HP|].
   clear E. unfold invP in *. simpl. rewrite Eths in HP.
   apply Forall_split3 in HP. destruct HP as (H1 & Ht & H2).
@@ -763,14 +770,14 @@ Proof.
   - unfold disposer_step. destruct (th_pc t); simpl; auto;
       split_ifs; simpl; auto; discriminate.
   - destruct (th_pc t); simpl; auto;
-      (intros Hp; apply api_step_panic in Hp; destruct Hp as [Hp|[Hp|Hp]]; [contradiction | congruence | congruence]).
+      (intros Hp; apply api_step_panic in Hp; destruct Hp as [Hp|[Hp|[Hp|Hp]]]; [contradiction | congruence | congruence | congruence]).
 Qed.
 
 Lemma no_api_panic_lemma : forall fx handlers ndisp kinds sched,
-  fx_nil_guard fx = true -> fx_err_guard fx = true ->
+  fx_nil_guard fx = true -> fx_err_guard fx = true -> fx_tx_guard fx = true ->
   cfg_no_panic (exec_sched fx (init_cfg handlers ndisp kinds) sched) = true.
 Proof.
-  intros fx handlers ndisp kinds sched Hfx Hfe.
+  intros fx handlers ndisp kinds sched Hfx Hfe Hft.
   assert (HP : invP (exec_sched fx (init_cfg handlers ndisp kinds) sched)).
   { apply exec_sched_inv; [intros; apply invP_step; assumption|].
     unfold invP, init_cfg. simpl. apply Forall_forall. intros t Hin.
@@ -808,7 +815,8 @@ Qed.
 
 Definition fx_only_close_query : fixes :=
   {| fx_close_query := true; fx_recheck := false; fx_nil_guard := false;
-     fx_ctx_closed := false; fx_ctx_watch := false; fx_err_guard := false |}.
+     fx_ctx_closed := false; fx_ctx_watch := false; fx_err_guard := false;
+     fx_tx_guard := false |}.
 
 (* corpus/C13/whenquery_leak.json *)
 Lemma whenquery_leak_refuted_lemma : exists handlers ndisp kinds sched,
@@ -861,4 +869,13 @@ Lemma eval_closed_channel_refuted_lemma : exists handlers ndisp sched,
   cfg_no_panic (exec_sched no_fixes (init_cfg handlers ndisp [KDispose; KEval]) sched) = false.
 Proof.
   exists false, 1, [1; 0; 0; 0; 1]. vm_compute. reflexivity.
+Qed.
+
+(* corpus/C13/add_popped_then_disposed_panic.json (needs the schedule point
+   pq:popped): the workload goroutine has shifted the queue, the disposal sets
+   `disposed`, newTransition indexes the nil Time *)
+Lemma popped_window_refuted_lemma : exists handlers ndisp sched,
+  cfg_no_panic (exec_sched no_fixes (init_cfg handlers ndisp [KDispose; KAddP]) sched) = false.
+Proof.
+  exists false, 1, [1; 1; 1; 1; 1; 1; 0; 0; 1]. vm_compute. reflexivity.
 Qed.
